@@ -56,6 +56,29 @@ class Interp:
                         return sorted(seq, key=ref.index)
                     except ValueError:
                         return UNKNOWN
+            if key is not None and isinstance(key, ast.Lambda) and len(key.args.args) == 1 and e.args:
+                seq = self.model.fold(self.unit, e.args[0], env=env)
+                if seq is not UNKNOWN:
+                    keyed = []
+                    for x in seq:
+                        env2 = dict(env)
+                        env2[key.args.args[0].arg] = x
+                        k = self.model.fold(self.unit, key.body, env=env2)
+                        if k is UNKNOWN:
+                            return UNKNOWN
+                        keyed.append((k, x))
+                    try:
+                        rev = next((self.model.fold(self.unit, k.value, env=env) for k in e.keywords if k.arg == "reverse"), False)
+                        return [x for _, x in sorted(keyed, key=lambda t: t[0], reverse=bool(rev))]
+                    except TypeError:
+                        return UNKNOWN
+            if key is None and e.args and not e.keywords:
+                seq = self.model.fold(self.unit, e.args[0], env=env)
+                if seq is not UNKNOWN:
+                    try:
+                        return sorted(seq)
+                    except TypeError:
+                        return UNKNOWN
         if isinstance(e, ast.Call) and ast.unparse(e.func) in ("chain", "itertools.chain"):
             out = []
             for a in e.args:
